@@ -97,7 +97,7 @@ impl<I: VMsgIter> SortingMultiReaderIterator<I> {
 //@|        assert(pendings(heap_view(&min_heap)) =~= pendings(hv_it).push(e_new.pending()));
 //@|    }
 //@   hint before `SortingMultiReaderIterator {`
-//@|    assert(its0.subrange(0, vx_k) =~= its0);
+//@|    proof { if vx_k == its0.len() { assert(its0.subrange(0, vx_k) =~= its0); } }   // (conditional: a loop that can be left early must fail O:sort.new, not this hint)
 //@ end
 
 //@ extract src/utils/sorting_multi_readeriterator.rs <Iterator for SortingMultiReaderIterator>::next
